@@ -444,28 +444,28 @@ pub fn c01_rejects_adjacency_list_n3() {
 }
 
 // AdjacencyMap::empty(2) + arbitrary arcs, then 3 ops with ids 0..4 (vertex growth).
-// @verif prop=C01 tier=quick fl=f1 role=history/adjacency-map t=900 mem=12
+// @verif prop=C01 tier=quick fl=f1 feat=map4 role=history/adjacency-map t=900 mem=12
 #[cfg_attr(kani, kani::proof)]
 #[cfg_attr(kani, kani::unwind(10))]
 pub fn c01_history_adjacency_map_n2_x4_k3() {
     history_map::<2, 4, 3>();
 }
 
-// @verif prop=C01 tier=quick fl=f1 role=rejects/adjacency-map t=600 mem=10 expect=panic
+// @verif prop=C01 tier=quick fl=f1 feat=map4 role=rejects/adjacency-map t=600 mem=10 expect=panic
 #[cfg_attr(kani, kani::proof)]
 #[cfg_attr(kani, kani::unwind(10))]
 pub fn c01_rejects_adjacency_map_n3() {
     rejects_map::<3>();
 }
 
-// @verif prop=C01 tier=quick fl=f1 role=history/weighted t=900 mem=12
+// @verif prop=C01 tier=quick fl=f1 feat=map4 role=history/weighted t=900 mem=12
 #[cfg_attr(kani, kani::proof)]
 #[cfg_attr(kani, kani::unwind(10))]
 pub fn c01_history_weighted_n3_k2() {
     history_weighted::<3, 2>();
 }
 
-// @verif prop=C01 tier=quick fl=f1 role=rejects/weighted t=600 mem=10 expect=panic
+// @verif prop=C01 tier=quick fl=f1 feat=map4 role=rejects/weighted t=600 mem=10 expect=panic
 #[cfg_attr(kani, kani::proof)]
 #[cfg_attr(kani, kani::unwind(10))]
 pub fn c01_rejects_weighted_n3() {
